@@ -58,11 +58,14 @@ CLAIMS.update({
         'solve_cubic/solve_quartic must be backward stable or within 1e-7 of a true root, at most degree values, every separated simple root returned once; '
         'ITP within epsilon of the zero of monotone cubics. The implementation is also compared with the Float instantiation of the hand-written Lean model '
         'of solve_quadratic/solve_cubic/solve_itp. Theorems about the model are being added (quadratic root set, cubic branches).',
-   note='Work in progress: property theorems for the solvers are not yet merged - the evidence file lists 0 theorems until they are; the check currently decides '
-        'by oracle + correspondence. Two known findings (negligible leading coefficient).',
+   note='Theorems (lawful field / reals with real sqrt, cbrt, atan2, sin, cos laws): solve_quadratic returns exactly the real roots, strictly increasing, '
+        'with the linear/constant/all-zero fallbacks; solve_cubic returns exactly the real roots in all three discriminant branches (sound and complete), no '
+        'duplicates off the triple root, c3 = 0 delegates to the quadratic; quartic reductions c4 = 0 / c0 = 0; ITP keeps the bracket, uses at most nmax+1 '
+        'iterations and returns a point within epsilon of the zero of a monotone (or continuous) function. NOT proved: the general quartic (LDL^T path is not '
+        'in the model: oracle only), every float-level claim. Two known findings (negligible leading coefficient).',
    ref='6 / C15'),
 })
-PENDING = {'C15'}   # claimed once the theorems are merged
+PENDING = set()   # claimed once the theorems are merged
 for _p in PENDING:
     CLAIMS.pop(_p, None)
 NA = {}
